@@ -6,7 +6,7 @@ import (
 	"verif/vkit"
 )
 
-var coll = vkit.NewCollector("C08", "TestCtxHooks", "bus without a store or persisting to a memory store, to a store that refuses calls whose context is done, or to one that rejects every second append; handler lists of 0-8 (sync/async x plain/context-aware x Sequential, optionally yielding; publishes issued by one goroutine or by 2-4 concurrent ones; one may cancel the publish context when it runs; sync ones may publish a nested event), 1-4 publishes each with Publish, a context with 0-3 values, or an already-cancelled context; any subset of the four publish hooks (options or Set* methods), with or without an Observability that replaces the context. Oracle = rules over the recorded trace: already cancelled => no handler ever runs; after a synchronous handler cancels, no later synchronous handler starts and all earlier ones ran once; never cancelled => every handler exactly once; context-aware handlers see every value and their context ends with the parent; every installed hook exactly once per publish (also nested, cancelled, zero handlers), before-hooks before the first handler start and after-hooks after the last synchronous handler return, with the event and its reflect.Type. Non-trivial = cancelled by a handler with handlers after it, or >=2 hooks with >=1 handler.")
+var coll = vkit.NewCollector("C08", "TestCtxHooks", "bus without a store or persisting to a memory store, to a store that refuses calls whose context is done, or to one that rejects every second append; handler lists of 0-8 (sync/async x plain/context-aware x Sequential, optionally yielding; publishes issued by one goroutine or by 2-4 concurrent ones; one may cancel the publish context when it runs; sync ones may publish a nested event), publish contexts of the standard library or of a foreign implementation (own Done channel and Err); 1-4 publishes each with Publish, a context with 0-3 values, or an already-cancelled context; any subset of the four publish hooks (options or Set* methods), with or without an Observability that replaces the context. Oracle = rules over the recorded trace: already cancelled => no handler ever runs; after a synchronous handler cancels, no later synchronous handler starts and all earlier ones ran once; never cancelled => every handler exactly once; context-aware handlers see every value and their context ends with the parent; every installed hook exactly once per publish (also nested, cancelled, zero handlers), before-hooks before the first handler start and after-hooks after the last synchronous handler return, with the event and its reflect.Type. Non-trivial = cancelled by a handler with handlers after it, or >=2 hooks with >=1 handler.")
 
 func TestMain(m *testing.M) { vkit.Main(m) }
 
